@@ -108,7 +108,10 @@ def main():
         if sys.argv[2] not in ('all',) and not os.path.isdir(os.path.join(VERIF, 'seeded', sys.argv[2])):
             names = [n for n in sorted(os.listdir(os.path.join(VERIF, 'seeded'))) if n.startswith(sys.argv[2])]
         missed = [n for n in names if not run(n, tier)]
-        print('missed:', missed)
+        try:
+            print('missed:', missed)
+        except BrokenPipeError:
+            pass
 
 
 if __name__ == '__main__':
